@@ -3,8 +3,9 @@ import XpmVerif.Model.Runner
 /-! Line-protocol driver for M3 (C10).  `lake env lean --run Drive/C10.lean < ops.jsonl`
 
     op "crash": launcher 0 takes the lock, spawns runner 0, writes the pid file, releases; runner 0
-    advances to the program location `at`; the signal `sig` is delivered there; runner 0 runs until it
-    is dead; the directory is reported; launcher 1 relaunches the script (body outcome ok) and the
+    advances to the program location `at`; the signal `sig` is delivered there; optionally it advances to
+    the position `at2` (`hnd:<stage>` inside the running handler, or a location) where `sig2` is delivered;
+    runner 0 runs until it is dead; the directory is reported; launcher 1 relaunches the script (body outcome ok) and the
     result is reported again.
     op "path": the list of locations visited by an undisturbed run (diagnostics / coverage). -/
 open Lean XpmVerif XpmVerif.J XpmVerif.Runner
@@ -35,13 +36,19 @@ def dirJ (s : St) : Json :=
   Json.mkObj [("done", s.sh.done), ("failed", optNatJ s.sh.failed), ("pid", s.sh.pid.isSome),
               ("lockfree", s.sh.lock.isNone)]
 
-/-- advance process `i` until its location is named `t` (no handler active) -/
+/-- where the process is: the stage of a running signal handler (`hnd:<stage>`), else the main location -/
+def posName (p : Proc) : String :=
+  match p.hnd with
+  | some (h, _) => s!"hnd:{hsName h}"
+  | none => locName p.loc
+
+/-- advance process `i` until it is at the position named `t` -/
 def advance (cfg : Cfg) (i : Nat) (t : String) : Nat → St → Option St
   | 0, _ => none
   | fuel + 1, s =>
     let p := s.procs i
     if p.dead.isSome then none
-    else if p.hnd.isNone && locName p.loc == t then some s
+    else if posName p == t then some s
     else advance cfg i t fuel (act cfg s (.step i))
 
 def toDeath (cfg : Cfg) (i : Nat) : Nat → St → St
@@ -57,7 +64,8 @@ def launch (cfg : Cfg) (s : St) (l : Nat) (o : Outcome) (b : Nat) : St :=
   run cfg s [.lLock l, .lSpawn l o b, .lWrite l, .lRelease l]
 
 def step (_ : Unit) (j : Json) : Unit × Json :=
-  let cfg : Cfg := { unregOnSuccess := boolF j "unreg" }
+  let cfg : Cfg := { unregOnSuccess := boolF j "unreg",
+                     markerFirst := if isNull (fld j "markerfirst") then true else boolF j "markerfirst" }
   let init := fld j "init"
   let s0 := St.init (boolF init "done") (optNat (fld init "failed"))
   let s1 := launch cfg s0 0 (outcomeOf j) (natF j "blen")
@@ -72,7 +80,14 @@ def step (_ : Unit) (j : Json) : Unit × Json :=
        | none => Json.mkObj [("error", Json.str s!"location {target} not reached")]
        | some s2 =>
          let s3 := match sg with | some g => act cfg s2 (.signal 0 g) | none => s2
-         let s4 := toDeath cfg 0 300 s3
+         -- optional second fault: advance to position `at2`, deliver `sig2`
+         let s3b? := match sigOf (strF j "sig2") with
+           | some g2 => (advance cfg 0 (strF j "at2") 300 s3).map (fun s => act cfg s (.signal 0 g2))
+           | none => some s3
+         match s3b? with
+         | none => Json.mkObj [("error", Json.str s!"second position {strF j "at2"} not reached")]
+         | some s3b =>
+         let s4 := toDeath cfg 0 300 s3b
          let p := s4.procs 0
          let s5 := launch cfg s4 1 .ok (natF j "blen")
          let s6 := toDeath cfg 1 300 s5
